@@ -22,15 +22,20 @@ func (m *Meta) VerifCreated(table string) (schemaCreated, infoCreated int, ok bo
 }
 
 // VerifInfoEntries / VerifSchemaEntries list the raw hamt entries
-// (name, tombstone?) of the in-memory tables.
-func (m *Meta) VerifInfoEntries(fn func(name string, tomb bool)) {
+// (name, tombstone?, lastMod) of the in-memory tables.
+func (m *Meta) VerifInfoEntries(fn func(name string, tomb bool, lastMod int)) {
 	for ti := range m.info.All() {
-		fn(ti.Table, ti.IsTomb())
+		fn(ti.Table, ti.IsTomb(), ti.lastMod)
 	}
 }
 
-func (m *Meta) VerifSchemaEntries(fn func(name string, tomb bool)) {
+func (m *Meta) VerifSchemaEntries(fn func(name string, tomb bool, lastMod int)) {
 	for ts := range m.schema.All() {
-		fn(ts.Table, ts.IsTomb())
+		fn(ts.Table, ts.IsTomb(), ts.lastMod)
 	}
+}
+
+// VerifAges returns the chunk ages of both chains.
+func (m *Meta) VerifAges() (schemaAges, infoAges []int) {
+	return m.schema.Ages, m.info.Ages
 }
